@@ -1046,7 +1046,8 @@ class Interp:
             tree.append(("mutate", cur, "extend", (y,), s.lineno))
             return Outcome(live=st)
         new = self.ev_BinOp_terms(op, cur, y, s)
-        if not self._rebinding_only(cur):
+        scalar_y = (is_const(y) and isinstance(y[1], (int, float, str))) or (y[0] == "call" and y[1] in ("len", "str", "int")) or y[0] in ("fstr",)
+        if not self._rebinding_only(cur) and not scalar_y:
             # may be an in-place mutation of a list-like external value
             tree.append(("mutate", cur, "augassign:" + op, (y,), s.lineno))
         self.assign(st, tgt, new, tree, s.lineno)
